@@ -10,6 +10,8 @@ define_language! {
         Let(Bind<AppliedId>, AppliedId) = "let",
         Add(AppliedId, AppliedId) = "add",
         Mul(AppliedId, AppliedId) = "mul",
+        // not in the repository's test language: an operator with a Symbol payload next to a child (C20)
+        Call(Symbol, AppliedId) = "call",
         Number(u32),
         Symbol(Symbol),
     }
